@@ -83,7 +83,7 @@ def check(case):
             if G.rows_from_matrix(A) != D:
                 raise Violation("chain_graph_wrong", "utils.chain_graph(%d) (+ the caller's edits) is not the expected graph" % p0)
             keep = A.copy()
-            res = must(lib(utils.imec, A, npints(set(I), len(I) + len(A))), "imec[libchain]")
+            res = must(lib(utils.imec, A, npints(set(I), len(I) + len(A), True)), "imec[libchain]")
             got, n = result_set(res, p, "imec")
             compare_sets(got, n, want, "imec[chain obtained from utils.chain_graph and edited by the caller]", "A=%s I=%s" % (case["A"], I))
             lab.append("var_libchain")
@@ -105,10 +105,10 @@ def check(case):
             lib(utils.dag_to_icpdag, bad, {0})
             lib(utils.imec, bad, {1})
         if not case.get("icpdag_only"):
-            res = must(lib(utils.imec, A, npints(set(Iset), len(Iset) + p), **kw), "imec[%s]" % var)
+            res = must(lib(utils.imec, A, npints(set(Iset), len(Iset) + p, True), **kw), "imec[%s]" % var)
             got, n = result_set(res, p, "imec")
             compare_sets(got, n, want, "imec[%s]" % var, "A=%s I=%s" % (case["A"], I))
-        ic = np.asarray(must(lib(utils.dag_to_icpdag, A, npints(set(Iset), len(Iset) + p + 1)), "dag_to_icpdag[%s]" % var))
+        ic = np.asarray(must(lib(utils.dag_to_icpdag, A, npints(set(Iset), len(Iset) + p + 1, True)), "dag_to_icpdag[%s]" % var))
         if ic.shape != (p, p) or G.rows_from_matrix(ic) != ug:
             raise Violation("icpdag_wrong", "dag_to_icpdag[%s](A=%s, I=%s) = %s, I-essential graph is %s"
                             % (var, case["A"], I, ic.astype(int).tolist(), G.lists_from_rows(ug)))
@@ -144,7 +144,7 @@ def _check_p2i(utils, case):
     bad_target = any(u[t] for t in I)
     A = to_np(P, case.get("dtype", "int"))
     keep = A.copy()
-    o = lib(utils.pdag_to_icpdag, A, npints(set(I), len(I) + len(A)))
+    o = lib(utils.pdag_to_icpdag, A, npints(set(I), len(I) + len(A), True))
     lab = []
     if bad_target:
         must_raise(o, ValueError, "pdag_to_icpdag(undirected edge at a target)")
